@@ -434,7 +434,42 @@ pub(crate) async fn write_ibc_genesis(storage: &Storage) {
     let ts = block_time(0, 0);
     delta.put_block_timestamp(ts).expect("timestamp");
     let client_id = ClientId::default();
-    let client_state = crate::test_utils::dummy_ibc_client_state(5);
+    // (the crate's dummy client state has a trusting period of one second, i.e. is expired by the
+    // first block; use a period that outlasts every run)
+    let client_state = {
+        use ibc_types::lightclients::tendermint::{
+            client_state::{
+                AllowUpdate,
+                ClientState,
+            },
+            TrustThreshold,
+        };
+        let version = 2;
+        let chain_id = ibc_types::core::connection::ChainId::new("test".to_string(), version);
+        let proof_spec = ibc_proto::ics23::ProofSpec {
+            leaf_spec: None,
+            inner_spec: None,
+            max_depth: 0,
+            min_depth: 0,
+            prehash_key_before_comparison: false,
+        };
+        ClientState::new(
+            chain_id,
+            TrustThreshold::TWO_THIRDS,
+            std::time::Duration::from_secs(10_000_000),
+            std::time::Duration::from_secs(20_000_000),
+            std::time::Duration::from_secs(1),
+            ibc_types::core::client::Height::new(version, 5).unwrap(),
+            vec![proof_spec],
+            vec![],
+            AllowUpdate {
+                after_expiry: true,
+                after_misbehaviour: true,
+            },
+            None,
+        )
+        .unwrap()
+    };
     let height = client_state.latest_height;
     delta.put_client(&client_id, client_state);
     let consensus_state = ConsensusState::new(
